@@ -67,8 +67,11 @@ OddConvProgs == {[name |-> "oddconv-" \o k,
                             [] k = "typeset" -> Hdr("") \o "// goverter:converter\ntype C interface {\n\t~int | ~string\n}\n"
                             [] k = "empty" -> Hdr("") \o "// goverter:converter\ntype C interface{}\n"
                             [] k = "late-error" -> Hdr("") \o "import \"strconv\"\n\nvar _ = strconv.Atoi\n\ntype In struct {\n\tKids  []In\n\tValue string\n}\ntype Out struct {\n\tKids  []Out\n\tValue int\n}\n\n// goverter:converter\n// goverter:extend strconv:Atoi\ntype C interface {\n\tConv(source *In) (*Out, error)\n}\n"
-                            [] k = "late-error-2" -> Hdr("") \o "import \"strconv\"\n\nvar _ = strconv.Atoi\n\ntype In struct {\n\tL *In\n\tR []In\n\tM map[string]In\n\tValue string\n}\ntype Out struct {\n\tL *Out\n\tR []Out\n\tM map[string]Out\n\tValue int\n}\n\n// goverter:converter\n// goverter:extend strconv:Atoi\ntype C interface {\n\tConv(source []In) ([]Out, error)\n}\n"] :
-                    k \in {"embedded", "embedded-only", "typeset", "empty", "late-error", "late-error-2"}}
+                            [] k = "late-error-2" -> Hdr("") \o "import \"strconv\"\n\nvar _ = strconv.Atoi\n\ntype In struct {\n\tL *In\n\tR []In\n\tM map[string]In\n\tValue string\n}\ntype Out struct {\n\tL *Out\n\tR []Out\n\tM map[string]Out\n\tValue int\n}\n\n// goverter:converter\n// goverter:extend strconv:Atoi\ntype C interface {\n\tConv(source []In) ([]Out, error)\n}\n"
+                            [] k = "ctx-method-unavailable" -> Hdr("") \o "type Loc struct{ L string }\ntype Item struct{ V int }\ntype ItemDTO struct{ V int }\n\n// goverter:converter\ntype C interface {\n\t// goverter:context loc\n\tConvertItem(loc Loc, source Item) ItemDTO\n\tConv(source []Item) []ItemDTO\n}\n"
+                            [] k = "blank-variable" -> Hdr("") \o "type In struct{ V int }\ntype Out struct{ V int }\n\n// goverter:variables\nvar (\n\t_    func(source In) Out\n\tConv func(source In) Out\n)\n"
+                            [] k = "blank-variable-only" -> Hdr("") \o "type In struct{ V int }\ntype Out struct{ V int }\n\n// goverter:variables\nvar (\n\t_ func(source In) Out\n)\n"] :
+                    k \in {"embedded", "embedded-only", "typeset", "empty", "late-error", "late-error-2", "ctx-method-unavailable", "blank-variable", "blank-variable-only"}}
 \* update methods with update:ignoreZeroValueField over every kind of field type (the zero-value comparison must exist for each)
 ZeroFieldTypes == {"unsafe.Pointer", "uintptr", "complex128", "chan int", "func()", "interface{}", "any", "error", "[2]int", "[0]int", "struct{ X int }", "struct{}",
                    "*int", "[]int", "map[string]int", "string", "bool", "float32", "rune", "NI", "NS", "NP"}
